@@ -119,8 +119,8 @@ static bool check_full(int s, bool all_contains) {
     return true;
 }
 
-enum { OP_ADD, OP_REMOVE, OP_ADDRANGE, OP_REMOVERANGE, OP_CLEAR, OP_CLONE, OP_ADDMANY, OP_OR, OP_AND, OP_XOR, OP_ANDNOT, OP_CODEC, OP_RECREATE, OP_N };
-static const char *const OPN[OP_N] = {"varintBitmapAdd", "varintBitmapRemove", "varintBitmapAddRange", "varintBitmapRemoveRange", "varintBitmapClear", "varintBitmapClone", "varintBitmapAddMany", "varintBitmapOr", "varintBitmapAnd", "varintBitmapXor", "varintBitmapAndNot", "varintBitmapEncode+Decode", "varintBitmapFree+Create"};
+enum { OP_ADD, OP_REMOVE, OP_ADDRANGE, OP_REMOVERANGE, OP_CLEAR, OP_CLONE, OP_ADDMANY, OP_OR, OP_AND, OP_XOR, OP_ANDNOT, OP_CODEC, OP_RECREATE, OP_FROMRUNS, OP_N };
+static const char *const OPN[OP_N] = {"varintBitmapAdd", "varintBitmapRemove", "varintBitmapAddRange", "varintBitmapRemoveRange", "varintBitmapClear", "varintBitmapClone", "varintBitmapAddMany", "varintBitmapOr", "varintBitmapAnd", "varintBitmapXor", "varintBitmapAndNot", "varintBitmapEncode+Decode", "varintBitmapFree+Create", "varintBitmapDecode(run-encoded)"};
 
 static void note_transition(int op, int before, int after) {
     if (before != after) g_trans[before][after]++;
@@ -154,6 +154,7 @@ static void history(uint64_t idx, rng_t *r) {
         if (rng_chance(r, 1, 2)) op = rng_chance(r, 1, 2) ? OP_ADD : OP_REMOVE;
         if (rng_chance(r, 1, 12)) op = OP_ADDMANY;
         if (rng_chance(r, 1, 12)) op = OP_ADDRANGE;
+        if (rng_chance(r, 1, 25)) op = OP_FROMRUNS;
         int nt = 0;
         int before = typeof_(OBJ[s]);
         g_opname = OPN[op];
@@ -316,10 +317,12 @@ static void history(uint64_t idx, rng_t *r) {
         case OP_CODEC: {
             snprintf(g_opargs, sizeof g_opargs, "slot %d [%s card %u]", s, TN[before], MOD[s]->card);
             gbuf_t gb;
-            gbuf_alloc(&gb, 5 + 8192 + 64, 256, 0x6B);
+            /* varintBitmapSizeBytes (in-memory size) is never smaller than the serialised form */
+            size_t cap = varintBitmapSizeBytes(OBJ[s]) + 16;
+            gbuf_alloc(&gb, cap, 256, 0x6B);
             g_ctx = "varintBitmapEncode";
             size_t nb = varintBitmapEncode(OBJ[s], gb.p);
-            if (gbuf_check(&gb) != -1 || nb == 0 || nb > 5 + 8192 + 64) {
+            if (gbuf_check(&gb) != -1 || nb == 0 || nb > cap) {
                 viol("C08:varintBitmapEncode:encoded-size-out-of-range", "step %d returned %zu", g_step, nb);
                 ok = false;
                 gbuf_free(&gb);
@@ -342,6 +345,44 @@ static void history(uint64_t idx, rng_t *r) {
                 static const char *const dn[3] = {"c08_decode_of_ARRAY", "c08_decode_of_BITMAP", "c08_decode_of_RUNS"};
                 stat_add(dn[before], 1);
             }
+            ok = check_full(s, false);
+            break;
+        }
+        case OP_FROMRUNS: {
+            /* the same set deserialised from its run-length serialisation (type 2: cardinality, run count,
+             * [start,length] pairs): run containers with many runs and any cardinality */
+            snprintf(g_opargs, sizeof g_opargs, "slot %d [%s card %u]", s, TN[before], MOD[s]->card);
+            uint32_t nruns = 0;
+            for (uint32_t v = 0; v < 65536; v++) if (m_has(MOD[s], v) && (v == 0 || !m_has(MOD[s], v - 1))) nruns++;
+            if (nruns > 2500 || (MOD[s]->card == 65536)) break;
+            size_t nb = 1 + 4 + 4 + (size_t)nruns * 4;
+            uint8_t *enc = malloc(nb);
+            enc[0] = 2;
+            memcpy(enc + 1, &MOD[s]->card, 4);
+            memcpy(enc + 5, &nruns, 4);
+            uint32_t k = 0;
+            for (uint32_t v = 0; v < 65536;) {
+                if (!m_has(MOD[s], v)) { v++; continue; }
+                uint32_t e = v;
+                while (e < 65536 && m_has(MOD[s], e)) e++;
+                uint16_t st = (uint16_t)v, ln = (uint16_t)(e - v);
+                memcpy(enc + 9 + k * 4, &st, 2);
+                memcpy(enc + 9 + k * 4 + 2, &ln, 2);
+                k++;
+                v = e;
+            }
+            g_ctx = "varintBitmapDecode";
+            varintBitmap *d = varintBitmapDecode(enc, nb);
+            free(enc);
+            if (!d) {
+                viol("C08:varintBitmapDecode:returned-null-for-valid-encoding", "step %d run-encoded set of %u members in %u runs", g_step, MOD[s]->card, nruns);
+                ok = false;
+                break;
+            }
+            varintBitmapFree(OBJ[s]);
+            OBJ[s] = d;
+            STAT_INC("c08_objects_from_run_encodings");
+            if (nruns > 1) STAT_INC("c08_multi_run_containers");
             ok = check_full(s, false);
             break;
         }
